@@ -13,7 +13,7 @@ rejection / retry / fallback branches of the samplers are exercised.
 
 Streams
   sampler     direct calls of every in-house sampler / fixed graph / modification with arguments at and just outside
-              the legal range, recorded draws replayed in the model (as_is and spec variants)
+              the legal range, recorded draws replayed in the model of the current code (demanded) and of the code as found
   scripted    hand-written draw sequences (collision runs) for the retry loops
   cli         graph specifications through the REAL parser: every construction x options (plantclique, plantbiclique,
               addedges, splitedges, save); in-house parts replayed in the model stage by stage; networkx generators are an
@@ -36,7 +36,8 @@ META = dict(
               'run-time structure checks for the networkx generators',
     category='proof',
     text='Machine-checked theorems state for EVERY stream of draws that respects the contract of random.randint/sample that the '
-         'in-house constructions return the promised structure whenever they return; three defects are kept as _refuted witnesses. '
+         'in-house constructions return the promised structure whenever they return; the model follows the current code, the five '
+         'repaired defects are kept as _as_found_refuted witnesses on the model of the code as found. '
          'The model is tied to the code by recording every draw of the real run and replaying it in the extracted model, comparing '
          'graphs exactly. networkx generators (gnp, gnm, gnd, grid, torus, complete multipartite) are an unmodelled oracle: their '
          'results are only checked at run time (a check, not a proof).',
@@ -391,15 +392,17 @@ def chk_split(before, after, k):
 # --------------------------------------------------------------------------
 class Case:
     def __init__(self, stream, name, args, call, variants, prop=None, reachable=True, site=None,
-                 compare=None, cmp=None, p=None, extra=None, alt_cmp=None):
+                 compare=None, cmp=None, p=None, extra=None, alt_cmp=None, old_cls=None):
         self.stream, self.name, self.args = stream, name, args
         self.call = call              # () -> canon or tuple starting with canon
-        self.variants = variants      # draws(list of int) -> list of model requests (as_is first, then spec)
+        self.variants = variants      # draws(list of int) -> list of model requests: the model of the CURRENT code first (it is
+                                      # demanded), then the model of the code as found (only to recognise a lost repair)
         self.prop = prop              # canon -> None | description   (structure promised for the returned graph)
         self.reachable = reachable    # the arguments pass the command line guard: any exception but ValueError is a failing input
         self.site = site or name
         self.compare = compare or agrees
-        self.cmp, self.p, self.alt_cmp = cmp, p, alt_cmp   # alt_cmp: the comparison of the repaired code
+        self.cmp, self.p, self.alt_cmp = cmp, p, alt_cmp   # cmp: the comparison of the current code; alt_cmp: of the code as found
+        self.old_cls = old_cls        # class of the repaired finding the as-found variant stands for
         self.extra = extra or {}
         self.prop_draws = None        # (canon, recorded integer draws) -> None | description
 
@@ -471,10 +474,21 @@ class Runner:
             mods = [mod_outcome(r) for r in reps[k:k + len(vs)]]
             k += len(vs)
             hit = [i for i, m in enumerate(mods) if case.compare(got, m)]
-            if hit:
-                ctx.tally('model variant agreed', '%s:%s' % (case.name, 'as_is' if hit[0] == 0 else 'spec') if len(vs) > 1 else case.name + ':only')
+            if len(mods) > 1 and mods[0] != mods[1]:
+                ctx.tally('cases on which the repairs matter', case.name)
+            if 0 in hit:
+                ctx.tally('model variant agreed', case.name + (':current' if len(vs) > 1 else ':only'))
                 continue
             ctx.disagreements_checked += 1
+            if hit:
+                # the implementation sides with the model of the code AS FOUND against the model of the current code: a repair is lost
+                ctx.violation('counterexample' if flagged else 'correspondence',
+                              '%s%r behaves as the code did before its repair (%s): replaying the recorded draws, the model of the code as found '
+                              'agrees and the model of the current code does not' % (case.name, tuple(case.args), case.old_cls),
+                              dict(input=inp, implementation=[list(x) if isinstance(x, (list, tuple)) else x for x in got],
+                                   model=[list(m) for m in mods], correspondence='GraphGen.v <-> ' + case.name), flagged,
+                              site=case.site, cls=case.old_cls or 'as-found-behaviour')
+                continue
             ctx.violation('correspondence', 'replaying the recorded draws of %s%r in the model (GraphGen.v) gives another result; '
                           'the C15 theorems no longer cover the code' % (case.name, tuple(case.args)),
                           dict(input=inp, implementation=[list(x) if isinstance(x, (list, tuple)) else x for x in got],
@@ -501,9 +515,9 @@ def build_graph(G, cg):
 def case_m_edges(G, L, R, m, stream='sampler'):
     dense = L > 0 and R > 0 and m > L * R // 3
     return Case(stream, 'bipartite_random_m_edges', [L, R, m], lambda: canon(G.bipartite_random_m_edges(L, R, m)),
-                lambda s: [cmd('gg_m_edges', False, L, R, m, s), cmd('gg_m_edges', True, L, R, m, s)],
+                lambda s: [cmd('gg_m_edges', True, L, R, m, s), cmd('gg_m_edges', False, L, R, m, s)],
                 prop=lambda cg: chk_m_edges(cg, L, R, m), reachable=(L > 0 and R > 0 and 0 <= m <= L * R),
-                site='glrm-dense' if dense else 'glrm-sparse')
+                site='glrm-dense' if dense else 'glrm-sparse', old_cls='raises-TypeError')
 
 
 def case_left_regular(G, l, r, d, stream='sampler'):
@@ -530,8 +544,8 @@ def case_regular(G, l, r, d, stream='sampler'):
             return mod[0] in ('nofuel', 'badoracle') and d > r
         return agrees(got, mod)
     return Case(stream, 'bipartite_random_regular', [l, r, d], lambda: canon(G.bipartite_random_regular(l, r, d)),
-                lambda s: [cmd('gg_random_regular', False, 1200, l, r, d, s), cmd('gg_random_regular', True, 1200, l, r, d, s)],
-                prop=prop_regular(l, r, d), reachable=ok, site='regular', compare=compare)
+                lambda s: [cmd('gg_random_regular', True, 1200, l, r, d, s), cmd('gg_random_regular', False, 1200, l, r, d, s)],
+                prop=prop_regular(l, r, d), reachable=ok, site='regular', compare=compare, old_cls='position-skipped-not-regular')
 
 
 def case_shift(G, N, M, pat, stream='sampler'):
@@ -553,8 +567,8 @@ def case_shift(G, N, M, pat, stream='sampler'):
             return mod[0] == 'ok' and mod[1] == got[1] and mod[2] == got[2]
         return mod[0] == 'exc' and mod[1] == got[1]
     return Case(stream, 'bipartite_shift', [N, M, list(pat)], call,
-                lambda s: [cmd('gg_shift', True, N, M, list(pat)), cmd('gg_shift', False, N, M, list(pat))],
-                prop=prop, reachable=(N > 0 and M > 0), site='bipartite_shift', compare=compare)
+                lambda s: [cmd('gg_shift', False, N, M, list(pat)), cmd('gg_shift', True, N, M, list(pat))],
+                prop=prop, reachable=(N > 0 and M > 0), site='bipartite_shift', compare=compare, old_cls='sorts-caller-pattern')
 
 
 def case_fixed(G, which, args, stream='sampler'):
@@ -583,13 +597,13 @@ def case_bip_random(G, L, R, p, stream='sampler'):
         if e:
             return e
         if p == 0 and cg[3]:
-            return ('p = 0 but there are edges (random() returned 0.0 and the test is `<= p`)', 'p0-nonempty')
+            return ('p = 0 but there are edges (random() returned 0.0 and the test is `<= p` again)', 'p0-nonempty')
         if p == 1 and len(cg[3]) != L * R:
             return 'p = 1 but the graph is not complete'
         return None
     return Case(stream, 'bipartite_random', [L, R, p], lambda: canon(G.bipartite_random(L, R, p)),
-                lambda s: [cmd('gg_bip_random', L, R, pok, s)], prop=prop, reachable=(L > 0 and R > 0 and pok), site='glrp', cmp='<=', p=p,
-                alt_cmp='<')
+                lambda s: [cmd('gg_bip_random', L, R, pok, s)], prop=prop, reachable=(L > 0 and R > 0 and pok), site='glrp', cmp='<', p=p,
+                alt_cmp='<=', old_cls='p0-nonempty')
 
 
 def prop_tnp(t, n, p):
@@ -706,7 +720,7 @@ def run_samplers(ctx, R, G, B, quick):
         l, r = rng.randint(1, 12), rng.randint(1, 12)
         R.run(case_left_regular(G, l, r, rng.choice([0, 1, r // 2, r - 1, r])), bias=rng.choice([0, 0.5]))
     R.flush()
-    # ---- bipartite_random_regular (as is / repaired), collisions provoked by the bias
+    # ---- bipartite_random_regular, collisions provoked by the bias
     for l in [-1, 0, 1, 2, 3, 4, 6]:
         for r in [-1, 0, 1, 2, 3, 4, 6]:
             for d in sorted({-1, 0, 1, 2, 3, r, r + 1}):
@@ -990,8 +1004,10 @@ class CliRunner:
         d.update(more)
         self.ctx.violation(kind, what, d, found, site=site, cls=cls)
 
-    def queue(self, inp, label, got, reqs, compare=agrees):
-        self.pending.append((inp, label, got, reqs, compare))
+    def queue(self, inp, label, got, reqs, compare=agrees, old=None):
+        """reqs[0]: the model of the CURRENT code (demanded); reqs[1:]: the model of the code as found; old = (site, class) of the
+        repaired finding it stands for"""
+        self.pending.append((inp, label, got, reqs, compare, old))
 
     def run(self, ty, tokens, seed=None, bias=0.0, stream='cli', script=None):
         ctx, A, G = self.ctx, self.A, self.G
@@ -1064,9 +1080,10 @@ class CliRunner:
         verdict = 'refused' if (base_failed and res[1] == 'ValueError') else 'passed'
         expected_late_refusal = (gname == 'torus' and all(d > 0 for d in ints) and 1 in ints)
         if not expected_late_refusal:
-            names = {'gnd': ['gnd', 'gnd-spec'], 'grid': ['grid', 'grid-spec'], 'torus': ['torus', 'grid-spec']}.get(gname, [gname])
+            names = {'gnd': ['gnd', 'gnd-as-found'], 'grid': ['grid', 'grid-as-found'], 'torus': ['torus', 'grid-as-found']}.get(gname, [gname])
+            old = {'gnd': ('gnd', 'raises-NetworkXError'), 'grid': ('grid-torus', 'no-dimension'), 'torus': ('grid-torus', 'no-dimension')}.get(gname)
             self.queue(inp, 'guard', verdict, [cmd('gg_guard', n, ints, p_ok) for n in names],
-                       lambda got, rep: (rep is True and got == 'passed') or (rep is False and got == 'refused'))
+                       lambda got, rep: (rep is True and got == 'passed') or (rep is False and got == 'refused'), old=old)
         # ---------- the construction itself
         if stages:
             base = stages[0][1]
@@ -1083,13 +1100,15 @@ class CliRunner:
             if st is not None:
                 got = ('ok', stages[0][1]) if stages else res
                 self.queue(inp, 'construction', got, [cmd('gg_obtain', gname, ints, fl, 1200, st) for fl in
-                                                      ((False, True) if gname in ('glrm', 'regular') else (False,))])
+                                                      ((True, False) if gname in ('glrm', 'regular') else (True,))],
+                           old={'glrm': ('glrm-dense', 'raises-TypeError'), 'regular': ('regular', 'position-skipped-not-regular')}.get(gname))
         elif gname == 'gnp' and len(ints) == 2 and ints[1] != 1 and p_ok and ints[0] > 0 and ints[1] > 0 and stages:
             bits_stream = int_stream(rec.draws[:ibase], '<', pval)
             self.queue(inp, 'construction', ('ok', stages[0][1]), [cmd('gg_tnp', ints[1], ints[0], bits_stream)])
         elif gname == 'glrp' and p_ok and stages:
             self.queue(inp, 'construction', ('ok', stages[0][1]),
-                       [cmd('gg_bip_random', ints[0], ints[1], True, int_stream(rec.draws[:ibase], c, pval)) for c in ('<=', '<')])
+                       [cmd('gg_bip_random', ints[0], ints[1], True, int_stream(rec.draws[:ibase], c, pval)) for c in ('<', '<=')],
+                       old=('glrp', 'p0-nonempty'))
         if not stages:
             return res
         # ---------- options, stage by stage on the implementation, as a whole in the model
@@ -1145,22 +1164,28 @@ class CliRunner:
 
     def flush(self):
         ctx = self.ctx
-        reqs = [r for (_i, _l, _g, rs, _c) in self.pending for r in rs]
+        reqs = [r for (_i, _l, _g, rs, _c, _o) in self.pending for r in rs]
         reps = ctx.model.batch(reqs) if reqs else []
         k = 0
-        for (inp, label, got, rs, compare) in self.pending:
+        for (inp, label, got, rs, compare, old) in self.pending:
             mine = reps[k:k + len(rs)]
             k += len(rs)
             if label == 'guard':
-                ok = any(compare(got, r) for r in mine)
+                hits = [compare(got, r) for r in mine]
                 shown = [r if isinstance(r, bool) else str(r) for r in mine]
             else:
                 mods = [mod_outcome(r) for r in mine]
-                ok = any(compare(got, m) for m in mods)
+                hits = [compare(got, m) for m in mods]
                 shown = [list(m) for m in mods]
-            if ok:
-                continue
+            if hits[0]:
+                continue          # the model of the current code is demanded
             ctx.disagreements_checked += 1
+            if any(hits[1:]) and old is not None:
+                ctx.violation('correspondence', 'command line %r: the %s is the one of the code before its repair (%s/%s), not the one of the current code'
+                              % (' '.join(inp['spec']), label, old[0], old[1]),
+                              dict(input=inp, implementation=got if isinstance(got, str) else [list(x) if isinstance(x, (list, tuple)) else x for x in got],
+                                   model=shown, correspondence='GraphGen.v <-> graph_build.py/' + label), False, site=old[0], cls=old[1])
+                continue
             ctx.violation('correspondence', 'command line %r: the %s differs from the model (GraphGen.v); the C15 theorems no longer cover the code'
                           % (' '.join(inp['spec']), {'guard': 'ValueError verdict of the argument guard', 'construction': 'constructed graph',
                                                      'options': 'graph after the options'}[label]),
